@@ -154,11 +154,13 @@ class ThreadSched:
 
 
 class GateSched:
-    def __init__(self, choices):
+    def __init__(self, choices, cycle=True):
         self.choices = list(choices)
+        self.cycle = cycle  # False: choices beyond the given vector are 0 (exhaustive enumeration extends the vector)
         self.waiting = []
         self.trace = []
         self.released = 0
+        self.branching = []  # number of waiting gates at each release (the branching factor of the schedule tree)
 
     async def point(self, tag):
         fut = asyncio.get_running_loop().create_future()
@@ -178,7 +180,11 @@ class GateSched:
                     raise HarnessError("gate scheduler: tasks neither finish nor wait at a gate")
                 continue
             spins = 0
-            c = self.choices[self.released % len(self.choices)] if self.choices else 0
+            if self.cycle:
+                c = self.choices[self.released % len(self.choices)] if self.choices else 0
+            else:
+                c = self.choices[self.released] if self.released < len(self.choices) else 0
+            self.branching.append(len(self.waiting))
             i = c % len(self.waiting)
             tag, fut = self.waiting.pop(i)
             self.released += 1
